@@ -56,8 +56,8 @@ def validate(wt, prop):
     return out
 
 
-def collect(root):
-    props = sorted(d for d in os.listdir(root) if os.path.isdir(os.path.join(root, d)) and d.startswith('C'))
+def collect(root, only=None):
+    props = sorted(d for d in os.listdir(root) if os.path.isdir(os.path.join(root, d)) and d.startswith('C') and (not only or d in only))
     with ThreadPoolExecutor(8) as ex:
         results = list(ex.map(lambda p: (p, validate(os.path.join(root, p), p)), props))
     os.makedirs(SET, exist_ok=True)
@@ -108,7 +108,7 @@ def run(ids, j):
 
 if __name__ == '__main__':
     if sys.argv[1] == 'collect':
-        collect(sys.argv[2])
+        collect(sys.argv[2], sys.argv[3:])
     else:
         a = sys.argv[2:]
         j = 8
